@@ -1,7 +1,7 @@
 (* Run/EvalProps.v — per-property projections of the state-machine trace.
    Each property compares only the part of the trace it speaks about, so an
    observable but unrelated rewrite does not alarm properties it does not touch. *)
-Require Export Verif.Run.EvalSM Verif.Model.Monitors Verif.Model.Monitors18 Verif.Model.Monitors2b Verif.Model.Monitors11a Verif.Model.Monitors6r Verif.Proofs.Monitor.
+Require Export Verif.Run.EvalSM Verif.Model.Monitors Verif.Model.Monitors18 Verif.Model.Monitors2b Verif.Model.Monitors11a Verif.Model.Monitors6r Verif.Model.Monitors5b Verif.Proofs.Monitor.
 Open Scope N_scope.
 
 Definition is_metric (f : metric -> bool) (a : action) : bool := match a with AMetric m => f m | _ => false end.
@@ -48,7 +48,7 @@ Definition mon_c02 (c : smcase) (t : list action) : bool :=
 Definition run_c02 := run_sm proj_c02 mon_c02.
 Definition mon_c04 (c : smcase) (t : list action) : bool := match c with KSm _ _ _ cup _ _ _ _ => accepts step4 (init4 cup) t end.
 Definition run_c04 := run_sm proj_c04 mon_c04.
-Definition mon_c05 (c : smcase) (t : list action) : bool := match c with KSm ep _ _ _ _ _ _ _ => accepts step5 (init5 ep) t end.
+Definition mon_c05 (c : smcase) (t : list action) : bool := match c with KSm ep _ _ _ _ _ _ _ => accepts step5 (init5 ep) t && accepts step5b init5b t end.
 Definition run_c05 := run_sm proj_c05 mon_c05.
 Definition mon_c06 (c : smcase) (t : list action) : bool :=
   match c with KSm ep _ _ cup _ e _ _ =>
